@@ -152,9 +152,15 @@ func propC14Bulk(c *Ctx, st string, n int) {
 			buf := make([]byte, 0, 32)
 			for i := 0; i < n/workers; i++ {
 				buf = buf[:0]
-				buf = append(buf, '\'', 'o', 'r', 'd', 'e', 'r', ' ', byte('a'+w))
-				x := i
-				for k := 0; k < 6; k++ {
+				buf = append(buf, '\'', 'o', 'r', 'd', 'e', 'r', ' ')
+				// 12 letters drawn from a counter-based generator: neighbours in time differ in every position
+				x := uint64(w)<<40 + uint64(i) + 0x9e3779b97f4a7c15
+				x ^= x >> 30
+				x *= 0xbf58476d1ce4e5b9
+				x ^= x >> 27
+				x *= 0x94d049bb133111eb
+				x ^= x >> 31
+				for k := 0; k < 12; k++ {
 					buf = append(buf, byte('a'+x%26))
 					x /= 26
 				}
